@@ -228,20 +228,21 @@ func systematic() []*Prog {
 	add("multi-items", Item{Kind: "action", PatVar: "x"}, begin(aUse("x", 0)))
 	add("multi-items", Item{Kind: "action", PatVar: "p", Body: []*Stmt{aUse("x", 0)}}, end(call("f", av("x"))), fn("f", A, lUse("a", 0)))
 	// deep chains around the cut-off of 100 extra passes
-	for _, n := range []int{99, 100, 101, 102, 105, 130} {
+	for _, n := range []int{30, 60, 80, 99, 100, 101, 102, 105, 130} {
 		for _, rev := range []bool{false, true} {
-			ps = append(ps, chain(n, "caller", TArray, TArray, rev))
-			ps = append(ps, chain(n, "caller", TScalar, TScalar, rev))
-			ps = append(ps, chain(n, "callee", TArray, TArray, rev))
-			ps = append(ps, chain(n, "after", TArray, TArray, rev))
-			ps = append(ps, chain(n, "both", TArray, TScalar, rev))
-			ps = append(ps, chain(n, "both", TArray, TArray, rev))
-		}
-	}
-	for _, p := range ps {
-		if len(p.Family) > 5 && p.Family[:5] == "chain" && len(p.funcs()) >= 99 {
-			// the type has to travel against the call order through >= 99 functions
-			p.Family = "chain-deep(n>=99)"
+			mark := func(p *Prog, needsMoreThan100 bool) {
+				if needsMoreThan100 {
+					// the type has to travel against the call order through more than 100 functions
+					p.Family = "chain-deep(>100 passes)"
+				}
+				ps = append(ps, p)
+			}
+			mark(chain(n, "caller", TArray, TArray, rev), n > 100)
+			mark(chain(n, "caller", TScalar, TScalar, rev), n > 100)
+			mark(chain(n, "callee", TArray, TArray, rev), false)
+			mark(chain(n, "after", TArray, TArray, rev), n >= 100)
+			mark(chain(n, "both", TArray, TScalar, rev), false)
+			mark(chain(n, "both", TArray, TArray, rev), false)
 		}
 	}
 	return ps
